@@ -140,7 +140,7 @@ PROPS = {
         trusted=CODEC_TRUST + ["Model.Alias: memory model of the pooled reader buffers (sync.Pool may hand any pooled buffer to any later ReadMessage); which decoders copy is read from the source by the extractor and checked behaviourally per data type"],
     ),
     "C19": dict(
-        domains=[("sctp", "demux", 6000, 100000), ("sctp", "exhaustive", 1, 1), ("sctp", "serve", 300, 4000)],
+        domains=[("sctp", "demux", 6000, 100000), ("sctp", "exhaustive", 1, 1), ("sctp", "serve", 300, 4000), ("retry", "write", 2000, 30000)],
         relevant=["C19:"],
         theorems=["DV.Props.C19."+t for t in ["C19_perstream","C19_reference","C19_one_message","C19_complete","C19_gen"]],
         gen_obligations=["Gen.sctpHeaderReads","Gen.sctpHeaderPins","Gen.sctpBodyReads","Gen.sctpAtLeastReads","Gen.connResetsStream","Gen.sctpWriteStreamCalls","Gen.HeaderLength"],
